@@ -2,6 +2,7 @@ package main
 
 import (
 	"fmt"
+	"go/types"
 	"strings"
 )
 
@@ -58,7 +59,8 @@ func ruleReadDBILoop(c *Check, rule string, forMarkers bool) {
 		apps := callsOf(p, dbiAppend)
 		switch {
 		case strings.HasPrefix(p.End, "backedge:"):
-			fl := backedgeVal(p, "flag")
+			// the cursor operation of the next Get: the loop-carried uint
+			fl := backedgeVal(p, loopPhiOfType(fn, func(t types.Type) bool { b, ok := t.Underlying().(*types.Basic); return ok && b.Kind() == types.Uint }))
 			if fl != "" {
 				flagNext = fl
 			}
@@ -109,7 +111,7 @@ func ruleReadDBILoop(c *Check, rule string, forMarkers bool) {
 	// cursor positions: First, then Next
 	first, _ := c.constValue2("github.com/PowerDNS/lmdb-go/lmdb", "First")
 	next, _ := c.constValue2("github.com/PowerDNS/lmdb-go/lmdb", "Next")
-	init := phiInitOf(fn, "flag")
+	init := phiInitOf(fn, loopPhiOfType(fn, func(t types.Type) bool { b, ok := t.Underlying().(*types.Basic); return ok && b.Kind() == types.Uint }))
 	c.Expect(init == "const:"+first && flagNext == "const:"+next && first != "" && next != "", rule, fnReadDBI+"/cursor-order",
 		"the cursor starts at lmdb.First and every continuing iteration uses lmdb.Next",
 		fmt.Sprintf("cursor flag starts as %s (lmdb.First=%s) and continues with %s (lmdb.Next=%s)", init, first, flagNext, next), pos)
@@ -128,12 +130,24 @@ func ruleSendDump(c *Check, rule, ruleTime, ruleOrder string) {
 	txn := param(fn, 0)
 	nIter, nRead, nSkip, bad := 0, 0, 0, 0
 	badOrder, nOrder := 0, 0
+	// captured variables by role
+	parent := c.P.Func(fnSendOnce)
+	stcF := "*free:" + freeInitSuffix(parent, fn, ".SchemaTracksChanges")
+	msgF := "*free:" + freeOfType(fn, func(t types.Type) bool { return namedIs(t, "snapshot.Snapshot") })
+	tsName := ""
+	if parent != nil {
+		tsName = localFeedingField(parent, "NameInfo", "Timestamp")
+	}
+	if stcF == "*free:" || msgF == "*free:" || tsName == "" {
+		c.Undecided(rule, fnSendTxn+"/captured", "cannot identify the captured mode flag, snapshot message and snapshot time of the transaction body", pos)
+		return
+	}
 	for i := range paths {
 		p := &paths[i]
 		names := callsOf(p, "lmdbenv.ReadDBINames")
 		if len(names) == 1 {
 			// shadow capture precedes the listing / dump in shadow mode
-			st, f := boolCond(p, "*free:schemaTracksChanges", eventIndex(p, names[0]))
+			st, f := boolCond(p, stcF, eventIndex(p, names[0]))
 			m2s := callsOf(p, fnMainToSh)
 			nOrder++
 			switch {
@@ -150,7 +164,7 @@ func ruleSendDump(c *Check, rule, ruleTime, ruleOrder string) {
 			}
 		}
 		// shadow mode: the capture is unconditional (also when nothing will be uploaded)
-		if st, f := boolCond(p, "*free:schemaTracksChanges", -1); !(f && st) && p.End == "return" && retIsNilErr(p) && len(callsOf(p, fnMainToSh)) == 0 {
+		if st, f := boolCond(p, stcF, -1); !(f && st) && p.End == "return" && retIsNilErr(p) && len(callsOf(p, fnMainToSh)) == 0 {
 			badOrder++
 			c.Bad(ruleOrder, fnSendTxn+"/capture-unconditional", "shadow mode: the transaction body returns successfully without having run mainToShadow (e.g. on the receive-only exit): the transaction id is then reported as synced although local changes were not captured", c.pathPos(p), describe(c, p))
 		}
@@ -186,7 +200,7 @@ func ruleSendDump(c *Check, rule, ruleTime, ruleOrder string) {
 			continue
 		}
 		nRead++
-		st, _ := boolCond(p, "*free:schemaTracksChanges", eventIndex(p, rd[0]))
+		st, _ := boolCond(p, stcF, eventIndex(p, rd[0]))
 		wantRead := elem
 		if !st {
 			wantRead = "(const:\"_sync_shadow_\" + " + elem + ")"
@@ -199,9 +213,9 @@ func ruleSendDump(c *Check, rule, ruleTime, ruleOrder string) {
 		// appended to msg.Databases
 		app := false
 		for _, e := range p.Events {
-			if e.Kind == "store" && e.Addr == "&*free:msg.Databases" {
+			if e.Kind == "store" && e.Addr == "&"+msgF+".Databases" {
 				for _, ap := range callsOf(p, "builtin:append") {
-					if ap.Res == e.Val && ap.Args[0] == "*free:msg.Databases" && ap.Args[1] == "["+rd[0].Res+"#0]" {
+					if ap.Res == e.Val && ap.Args[0] == msgF+".Databases" && ap.Args[1] == "["+rd[0].Res+"#0]" {
 						app = true
 					}
 				}
@@ -232,7 +246,7 @@ func ruleSendDump(c *Check, rule, ruleTime, ruleOrder string) {
 		p := &paths[i]
 		var stores []Event
 		for _, e := range p.Events {
-			if e.Kind == "store" && e.Addr == "free:ts" {
+			if e.Kind == "store" && e.Addr == "free:"+tsName {
 				stores = append(stores, e)
 			}
 		}
@@ -248,7 +262,7 @@ func ruleSendDump(c *Check, rule, ruleTime, ruleOrder string) {
 		nowRes = stores[0].Val
 		metaOK := false
 		for _, e := range p.Events {
-			if e.Kind == "store" && e.Addr == "&*free:msg.Meta.TimestampNano" && e.Val == "lmdbenv/header.TimestampFromTime("+nowRes+")" {
+			if e.Kind == "store" && e.Addr == "&"+msgF+".Meta.TimestampNano" && e.Val == "lmdbenv/header.TimestampFromTime("+nowRes+")" {
 				metaOK = true
 			}
 		}
@@ -271,13 +285,23 @@ func ruleSendDump(c *Check, rule, ruleTime, ruleOrder string) {
 
 // ruleSendNaming: name and meta agree and use the time taken in the txn (C06-R4/R5).
 func ruleSendNaming(c *Check, rule string) {
+	var niName, msgAlloc, tsName string
+	if f := c.P.Func(fnSendOnce); f != nil {
+		niName = allocOfType(f, func(t types.Type) bool { return namedIs(t, "snapshot.NameInfo") })
+		msgAlloc = allocOfType(f, func(t types.Type) bool { return namedIs(t, "snapshot.Snapshot") })
+		tsName = localFeedingField(f, "NameInfo", "Timestamp")
+	}
+	if niName == "" || msgAlloc == "" || tsName == "" {
+		c.Undecided(rule, fnSendOnce+"/locals", "cannot identify the NameInfo, the snapshot message and the snapshot time among SendOnce's locals", "")
+		return
+	}
 	fn, paths := c.walkFn(rule, fnSendOnce, WalkConfig{Memo: true,
 		KeepEvent: func(e *Event) bool {
 			if e.Kind == "ret" {
 				return true
 			}
 			if e.Kind == "store" {
-				return strings.Contains(e.Addr, ".Meta.") || e.Addr == "&alloc:ni" || strings.Contains(e.Addr, "alloc:new.")
+				return strings.Contains(e.Addr, ".Meta.") || e.Addr == "&alloc:"+niName || strings.Contains(e.Addr, "alloc:"+msgAlloc+".")
 			}
 			return e.Kind == "call" && (strings.Contains(e.Callee, "BuildName") || strings.Contains(e.Callee, "Interface.Store") || strings.Contains(e.Callee, "DumpData"))
 		},
@@ -300,7 +324,7 @@ func ruleSendNaming(c *Check, rule string) {
 			if e.Kind == "store" && strings.Contains(e.Addr, ".Meta.") {
 				meta[e.Addr[strings.LastIndex(e.Addr, ".")+1:]] = e.Val
 			}
-			if e.Kind == "store" && e.Addr == "&alloc:ni" {
+			if e.Kind == "store" && e.Addr == "&alloc:"+niName {
 				ni = e.Val
 			}
 			if e.Kind == "store" && strings.HasSuffix(e.Addr, ".FormatVersion") {
@@ -319,7 +343,7 @@ func ruleSendNaming(c *Check, rule string) {
 		dd := callsOf(p, "snapshot.DumpData")
 		ok := sn == meta["DatabaseName"] && sn != "" && strings.HasSuffix(sn, ".name") &&
 			inst == meta["InstanceID"] && strings.HasPrefix(inst, "syncer.(*Syncer).instanceID(") &&
-			ts == "local:ts" && kind == "const:\"snapshot\"" && ext == "const:\"pb.gz\"" &&
+			ts == "local:"+tsName && kind == "const:\"snapshot\"" && ext == "const:\"pb.gz\"" &&
 			len(bn) == 1 && len(dd) == 1 && st[0].Args[2] == bn[0].Res && st[0].Args[3] == dd[0].Res+"#0"
 		if !ok {
 			bad++
@@ -338,8 +362,8 @@ func ruleSendNaming(c *Check, rule string) {
 	// ts captured variable: written only by the transaction body
 	cl := c.P.Func(fnSendTxn)
 	if cl != nil {
-		b := closureBinding(fn, cl, "ts")
-		c.Expect(b == "alloc:ts", rule, fnSendOnce+"/ts-binding", "the transaction body's ts is the variable the file name uses", "closure variable ts is bound to "+b, pos)
+		b := closureBinding(fn, cl, tsName)
+		c.Expect(b == "alloc:"+tsName, rule, fnSendOnce+"/ts-binding", "the transaction body's ts is the variable the file name uses", "closure variable ts is bound to "+b, pos)
 	}
 }
 
